@@ -812,7 +812,11 @@ else:
             self.start()
             return self
 
-        def __exit__(self, *args, **kwargs) -> None:
+        def __exit__(self, exc_type, *args, **kwargs) -> None:
+            if exc_type is not None:
+                # the sentinel is never sent, stop the writer instead of
+                # waiting for it forever
+                self.process.terminate()
             self.join()
 
         def task(self) -> None:
